@@ -271,9 +271,13 @@ func init() {
 		if exactd >= 0 {
 			d = exactd
 		}
-		return map[string]interface{}{"id": "rand6-" + itoa(i), "queries": qs, "targets": ts,
+		v := map[string]interface{}{"id": "rand6-" + itoa(i), "queries": qs, "targets": ts,
 			"measure": measure, "n": n, "d": d, "table": rng.Intn(2) == 0, "threads": []int{1, 2, 4, 0}[rng.Intn(4)], "mono": false,
 			"wrapt": []int{0, 0, 3, 5, 8, 60}[rng.Intn(6)], "wrapq": []int{0, 0, 4}[rng.Intn(3)], "crlft": rng.Intn(5) == 0}
+		if len(qs) >= 2 && i%7 == 3 {
+			v["dupq"], v["table"] = true, false // two queries under one name: each still gets its own row, in file order
+		}
+		return v
 	}
 }
 
@@ -425,7 +429,8 @@ func init() {
 			run("toma", false, -1, e, -1, 1, false, false), run("toma", true, s, -1, -1, 1, false, false),
 			run("topa", false, -1, -1, -1, 2, false, false), run("topa", false, s, e, -1, 1, false, false),
 			run("topa", false, -1, -1, -1, 1, true, false), run("topa", false, -1, e, w, 3, false, true), run("topa", false, s, -1, -1, 1, true, false),
-			run("samvar", false, -1, -1, -1, 3, false, false), run("topavar", false, -1, -1, -1, 1, false, false)}
+			run("samvar", false, -1, -1, -1, 3, false, false), run("topavar", false, -1, -1, -1, 1, false, false),
+			run("tomavar", false, -1, -1, -1, 2, false, false)}
 		return map[string]interface{}{"id": "randsam-" + itoa(i), "ref": symList(ref), "recs": recs, "runs": runs}
 	}
 }
